@@ -231,14 +231,14 @@ type Proto interface {
 
 // UpConn is one accepted connection.
 type UpConn struct {
-	C      net.Conn
-	Remote string
-	Buf    []byte
-	Reqs   chan uint32   // complete requests, in arrival order
-	EOF    chan struct{} // closed when the peer closed / the read failed
-	mu     sync.Mutex
-	nreq   int
-	nresp  int
+	C       net.Conn
+	Remote  string
+	Buf     []byte
+	Reqs    chan uint32   // complete requests, in arrival order
+	EOF     chan struct{} // closed when the peer closed / the read failed
+	mu      sync.Mutex
+	nreq    int
+	nresp   int
 	Overlap int32 // a request arrived while another was unanswered (exclusive lease broken)
 }
 
